@@ -57,14 +57,14 @@ theorem verdict_retry_iff (a : Answer) :
     a.verdict = .retry ↔
       a.delivered = true ∧ a.ok2xx = false ∧ a.nonce ≠ .invalid ∧
       ∃ ty, a.body = .problem ty ∧ recoverable ty = true := by
-  obtain ⟨d, o, h, b⟩ := a
+  obtain ⟨d, o, h, b, rd⟩ := a
   cases d <;> cases o <;> cases h <;> cases b <;> simp [Answer.verdict]
 
 /-- Success ⇔ delivered, 2xx, nonce header valid or absent, body readable. -/
 theorem verdict_success_iff (a : Answer) :
     a.verdict = .success ↔
       a.delivered = true ∧ a.ok2xx = true ∧ a.nonce ≠ .invalid ∧ a.body ≠ .unreadable := by
-  obtain ⟨d, o, h, b⟩ := a
+  obtain ⟨d, o, h, b, rd⟩ := a
   cases d <;> cases o <;> cases h <;> cases b <;> simp [Answer.verdict] <;> split <;> simp_all
 
 /-- The failing answers named in the property: transport failure, invalid nonce header, and for a
@@ -76,7 +76,7 @@ theorem verdict_fail_of (a : Answer)
         ((∃ ty, a.body = .problem ty ∧ recoverable ty = false) ∨ a.body = .jsonOther ∨
           a.body = .notJson ∨ ∃ p, a.body = .payload p))) :
     a.verdict = .fail := by
-  obtain ⟨d, o, hd, b⟩ := a
+  obtain ⟨d, o, hd, b, rd⟩ := a
   cases d <;> cases o <;> cases hd <;> cases b <;> simp_all [Answer.verdict]
 
 /-! ## C08: the retry loop -/
@@ -157,9 +157,9 @@ theorem retry_plain_full_is_false :
       (∃ a, (postAnswers (post 10 .take st true true url).evs)[k]? = some a ∧ a.verdict = .retry ∧
         k + 1 < 10) ∧
       ¬ (k + 1 < (posts (post 10 .take st true true url).evs).length) := by
-  refine ⟨⟨some 0, [⟨true, false, .absent, .problem .serverInternal⟩,
-    ⟨false, false, .absent, .notJson⟩], 9⟩, 5, 0, by decide, ?_, by decide⟩
-  exact ⟨⟨true, false, .absent, .problem .serverInternal⟩, by decide, by decide, by decide⟩
+  refine ⟨⟨some 0, [⟨true, false, .absent, .problem .serverInternal, .no⟩,
+    ⟨false, false, .absent, .notJson, .no⟩], 9⟩, 5, 0, by decide, ?_, by decide⟩
+  exact ⟨⟨true, false, .absent, .problem .serverInternal, .no⟩, by decide, by decide, by decide⟩
 
 /-- The "only if" half needs no hypothesis at all (any inputs, script may run out): a further
 transmission happens only after a retryable answer, and only below the bound. -/
@@ -273,9 +273,9 @@ theorem poll_meets_judge (K N : Nat) (mode : NonceMode) (st : State) (clientOk b
 example :
     Spec.C08.holds 10
       (observe none (post 10 .cloneOld ⟨none,
-        [⟨false, false, .absent, .notJson⟩,
-         ⟨true, false, .absent, .problem .badNonce⟩,
-         ⟨true, true, .valid 3, .payload 2⟩], 0⟩ true true 5).evs) .ok = false := by decide
+        [⟨false, false, .absent, .notJson, .no⟩,
+         ⟨true, false, .absent, .problem .badNonce, .no⟩,
+         ⟨true, true, .valid 3, .payload 2, .no⟩], 0⟩ true true 5).evs) .ok = false := by decide
 
 /-- … an eleventh transmission, a retry after `unauthorized`, and a success on a 403. -/
 example : Spec.C08.holds 10 (List.replicate 11
@@ -351,15 +351,42 @@ theorem nonce_fresh (K N : Nat) (st : State) (calls : List Call)
     | none => exact absurd rfl hsome
     | some m => exact ⟨m, rfl, lastIssued_mem pre st.nonce m hn.symm⟩
 
-/-- Mode `take`: when no nonce is stored and the `newNonce` answer does not provide one with a
-2xx status, nothing is POSTed and the call fails. -/
+/-- Mode `take`: when no nonce is stored and the nonce fetch — the `newNonce` GET together with
+every redirection it is led through — fails or ends without a stored nonce, nothing is POSTed and
+the call fails. -/
+theorem no_post_when_fetch_fails_gen (N : Nat) (st : State) (clientOk builderOk : Bool) (url : Nat)
+    (hn : st.nonce = none)
+    (hf : (newNonce st clientOk).res.isOk = false ∨ (newNonce st clientOk).st.nonce = none) :
+    posts (post N .take st clientOk builderOk url).evs = [] ∧
+    (post N .take st clientOk builderOk url).res.isOk = false :=
+  post_take_fetch_fails_gen N st clientOk builderOk url hn hf
+
+/-- The same read off the first answer, when that answer is not a redirection `get` follows (since
+commit 1dd071b `get` follows a 3xx answer with a `Location` itself; the statement without the first
+conjunct of `hf` is false of that code: `no_post_when_fetch_fails_unguarded_is_false`). -/
 theorem no_post_when_fetch_fails (N : Nat) (st : State) (clientOk builderOk : Bool) (url : Nat)
     (hn : st.nonce = none)
     (hf : ∀ g rest, st.script = g :: rest →
-      g.issued = none ∨ g.ok2xx = false ∨ g.body = .unreadable) :
+      (∀ u' k, g.redir ≠ .to u' k) ∧
+      (g.issued = none ∨ g.ok2xx = false ∨ g.body = .unreadable)) :
     posts (post N .take st clientOk builderOk url).evs = [] ∧
     (post N .take st clientOk builderOk url).res.isOk = false :=
   post_take_fetch_fails N st clientOk builderOk url hn hf
+
+/-- Without the guard: the `newNonce` GET is answered 302 (so `ok2xx = false`) with a `Location`
+and a `Replay-Nonce`; `get` follows, the second answer is a 200, and the POST goes out with the
+nonce of the 302 answer. -/
+theorem no_post_when_fetch_fails_unguarded_is_false :
+    ∃ (st : State) (url : Nat), st.nonce = none ∧
+      (∀ g rest, st.script = g :: rest →
+        g.issued = none ∨ g.ok2xx = false ∨ g.body = .unreadable) ∧
+      posts (post 10 .take st true true url).evs ≠ [] := by
+  refine ⟨⟨none, [⟨true, false, .valid 4, .notJson, .to 8 false⟩,
+    ⟨true, true, .absent, .payload 0, .no⟩, ⟨true, true, .valid 5, .payload 2, .no⟩], 9⟩, 5,
+    rfl, ?_, by decide⟩
+  intro g rest h
+  cases h
+  decide
 
 /-- The code before the repair (mode `cloneOld`): freshness is false.  The server issues every
 nonce once (7 initially, then 9), answers the first POST with `serverInternal` and no
@@ -368,14 +395,14 @@ theorem nonce_fresh_old_is_false :
     ∃ (st : State) (calls : List Call),
       (st.nonce.toList ++ st.script.filterMap Answer.issued).Nodup ∧
       ¬ (postNonces (runCalls 20 10 .cloneOld st calls).2.2).Nodup := by
-  refine ⟨⟨some 7, [⟨true, false, .absent, .problem .serverInternal⟩,
-    ⟨true, true, .valid 9, .payload 2⟩], 0⟩, [.post true true 5], by decide, by decide⟩
+  refine ⟨⟨some 7, [⟨true, false, .absent, .problem .serverInternal, .no⟩,
+    ⟨true, true, .valid 9, .payload 2, .no⟩], 0⟩, [.post true true 5], by decide, by decide⟩
 
 /-- … and when its single `new_nonce` failed, it POSTed with the empty nonce. -/
 theorem no_post_without_nonce_old_is_false :
     ∃ (st : State) (calls : List Call),
       ∃ p ∈ posts (runCalls 20 10 .cloneOld st calls).2.2, p.nonce = none := by
-  refine ⟨⟨none, [⟨false, false, .absent, .notJson⟩, ⟨true, true, .valid 9, .payload 2⟩], 0⟩,
+  refine ⟨⟨none, [⟨false, false, .absent, .notJson, .no⟩, ⟨true, true, .valid 9, .payload 2, .no⟩], 0⟩,
     [.post true true 5], ⟨5, none, 0⟩, by decide, rfl⟩
 
 end Nonce
@@ -403,8 +430,8 @@ end Limiter
 /-! ## Non-vacuity: concrete inputs satisfying the hypotheses used above -/
 section Examples
 
-private def rec500 (h : NonceHdr) : Answer := ⟨true, false, h, .problem .serverInternal⟩
-private def ok200 (h : NonceHdr) (p : Nat) : Answer := ⟨true, true, h, .payload p⟩
+private def rec500 (h : NonceHdr) : Answer := ⟨true, false, h, .problem .serverInternal, .no⟩
+private def ok200 (h : NonceHdr) (p : Nat) : Answer := ⟨true, true, h, .payload p, .no⟩
 private def exScript : List Answer := [rec500 (.valid 1), rec500 (.valid 2), ok200 (.valid 3) 2]
 
 -- `post_exact_count`, `retry_iff_recoverable_supplied`: two retryable answers bringing nonces
@@ -412,7 +439,7 @@ example : ∀ a ∈ exScript.takeWhile Answer.isRetry, a.issued ≠ none := by d
 example : (posts (post 10 .take ⟨some 0, exScript, 9⟩ true true 5).evs).length = 3 := by decide
 example : (post 10 .take ⟨some 0, exScript, 9⟩ true true 5).res = .ok (.payload 2) := by decide
 -- `retry_iff_recoverable`: a run that is not stuck and does fail for want of a nonce
-example : (post 10 .take ⟨some 0, [rec500 .absent, ⟨false, false, .absent, .notJson⟩], 9⟩
+example : (post 10 .take ⟨some 0, [rec500 .absent, ⟨false, false, .absent, .notJson, .no⟩], 9⟩
     true true 5).res = .err (.nonceFetch .transport) := by decide
 -- the bound is reached: ten recoverable answers, ten transmissions, "too much errors"
 example : (posts (post 10 .take ⟨some 0, List.replicate 12 (rec500 (.valid 4)), 9⟩
